@@ -113,8 +113,8 @@ type c13Probe struct {
 	f func(ctx pipeline.ActionContext) error
 }
 
-func (p *c13Probe) String() string                                    { return "probe" }
-func (p *c13Probe) Do(ctx pipeline.ActionContext) error               { return p.f(ctx) }
+func (p *c13Probe) String() string                                       { return "probe" }
+func (p *c13Probe) Do(ctx pipeline.ActionContext) error                  { return p.f(ctx) }
 func (p *c13Probe) CloneWith(ctx pipeline.ActionContext) pipeline.Action { return p }
 
 // c13Render asks the real template engine (through an executor over an equal document).
@@ -552,7 +552,7 @@ func c13Run(c *Ctx) {
 		data := map[string]any{"m": map[string]any{
 			"leaf": scalarWire("v"), "num": scalarWire(7), "nul": scalarWire(nil),
 			"list": []any{scalarWire(1), scalarWire("x")}, "elist": []any{},
-			"cont": map[string]any{"m": map[string]any{"k": scalarWire("w"), "n": scalarWire(2)}},
+			"cont":  map[string]any{"m": map[string]any{"k": scalarWire("w"), "n": scalarWire(2)}},
 			"econt": map[string]any{"m": map[string]any{}},
 			"pref":  scalarWire("cont")}}
 		for _, f := range formats {
